@@ -54,6 +54,8 @@ struct Script {
     /// pending expectations: for each, (budget, calls made) — satisfied iff equal
     pending: Vec<(usize, usize)>,
     mix: u64,
+    /// another thread is already blocked in InjectorPP::new() / prevent() when the panic unwinds the holder
+    waiter: bool,
 }
 
 #[inline(never)]
@@ -108,7 +110,8 @@ fn gen(ctx: &Ctx) -> Vec<Script> {
                     if kind == PK::None && pos != 6 {
                         continue; // no injected panic: only the final drop matters
                     }
-                    v.push(Script { pos, kind, pending: p, mix });
+                    let waiter = v.len() % 3 == 0;
+                    v.push(Script { pos, kind, pending: p, mix, waiter });
                 }
             }
         }
@@ -131,6 +134,15 @@ struct Obs {
 fn body(pool: &Pool, s: &Script, rng: &mut Rng, obs: &mut Obs) {
     let _lib = ip::LibScope::enter();
     let mut inj = InjectorPP::new();
+    if s.waiter {
+        // let the waiter go for the guard now, and give it time to block on it
+        HOLDER_IN.store(true, Ordering::SeqCst);
+        let t0 = std::time::Instant::now();
+        while !WAITER_ASKING.load(Ordering::SeqCst) && t0.elapsed() < Duration::from_secs(5) {
+            std::hint::spin_loop();
+        }
+        std::thread::sleep(Duration::from_millis(3));
+    }
     shared_counted_fake(&mut inj);
     if r1() != 0x7111 {
         panic!("USER: HARNESS-MODEL shared counted fake not in effect");
@@ -284,6 +296,8 @@ fn body(pool: &Pool, s: &Script, rng: &mut Rng, obs: &mut Obs) {
     drop(inj);
 }
 
+static HOLDER_IN: std::sync::atomic::AtomicBool = std::sync::atomic::AtomicBool::new(false);
+static WAITER_ASKING: std::sync::atomic::AtomicBool = std::sync::atomic::AtomicBool::new(false);
 thread_local! {
     static REFUSE_IMAGE: std::cell::RefCell<Vec<u8>> = const { std::cell::RefCell::new(Vec::new()) };
 }
@@ -298,6 +312,7 @@ pub fn run(ctx: &Ctx) {
     let refuse_async_image = bytes_at(refuse_async_addr, 16);
     let mut by_msg: std::collections::BTreeMap<String, u64> = std::collections::BTreeMap::new();
     let mut probes = 0u64;
+    let mut waiters = 0u64;
     let mut leaked_after_mprotect = 0u64;
     for (idx, s) in scripts.iter().enumerate() {
         let idx = idx as u64;
@@ -311,6 +326,35 @@ pub fn run(ctx: &Ctx) {
         let s2 = s.clone();
         let seed = ctx.seed;
         let ri = refuse_image.clone();
+        HOLDER_IN.store(false, Ordering::SeqCst);
+        WAITER_ASKING.store(false, Ordering::SeqCst);
+        let waiter = if s.waiter {
+            let wants_preventer = idx % 2 == 1;
+            Some(std::thread::spawn(move || {
+                let t0 = std::time::Instant::now();
+                while !HOLDER_IN.load(Ordering::SeqCst) && t0.elapsed() < Duration::from_secs(10) {
+                    std::hint::spin_loop();
+                }
+                WAITER_ASKING.store(true, Ordering::SeqCst);
+                std::panic::catch_unwind(|| {
+                    if wants_preventer {
+                        let p = InjectorPP::prevent(); // blocks until the holder has unwound
+                        let ok = p.is_active() && r0() == 0x1100;
+                        drop(p);
+                        ok
+                    } else {
+                        let mut i = InjectorPP::new(); // blocks until the holder has unwound
+                        i.when_called(injectorpp::func!(fn (r0)() -> i32)).will_execute_raw(injectorpp::func!(fn (fk1)() -> i32));
+                        let ok = r0() == 0x7101;
+                        drop(i);
+                        ok && r0() == 0x1100
+                    }
+                })
+                .map_err(|p| panicobs::payload_msg(&p))
+            }))
+        } else {
+            None
+        };
         let h = std::thread::spawn(move || {
             REFUSE_IMAGE.with(|c| *c.borrow_mut() = ri);
             let mut rng = Rng::new(seed ^ hash64(s2.mix.wrapping_mul(77) ^ 0xC05));
@@ -329,6 +373,22 @@ pub fn run(ctx: &Ctx) {
                 continue;
             }
         };
+        // the thread that was already waiting for the guard while the holder unwound must get it, in working order;
+        // it is waited for BEFORE anything is compared (it fakes r0 for a moment once it has the guard)
+        let mut waiter_verdict: Option<Result<bool, String>> = None;
+        if let Some(wh) = waiter {
+            let t0 = std::time::Instant::now();
+            while !wh.is_finished() && t0.elapsed() < Duration::from_secs(30) {
+                std::thread::sleep(Duration::from_millis(1));
+            }
+            if !wh.is_finished() {
+                out::outcome(idx, &class, Verdict::Violated, "guard-not-released-after-unwind", &J::new().s("who", "thread that was waiting when the holder unwound"));
+                out::summary(&J::new().n("scripts", idx));
+                std::process::exit(75);
+            }
+            waiters += 1;
+            waiter_verdict = Some(wh.join().unwrap_or(Err("waiter thread died".into())));
+        }
         ip::disarm_all();
         *by_msg.entry(if ok { "no-panic".to_string() } else { panicobs::classify(&msg).to_string() }).or_insert(0) += 1;
         let unsat = s.pending.iter().any(|(b, c)| b != c);
@@ -417,6 +477,16 @@ pub fn run(ctx: &Ctx) {
                 sig = "trampoline-left-mapped-after-unwind".into();
             }
         }
+        if sig.is_empty() {
+            match &waiter_verdict {
+                Some(Ok(false)) => sig = "waiting-thread-got-a-guard-that-does-not-work".into(),
+                Some(Err(m)) => {
+                    sig = "thread-waiting-for-the-guard-panicked-when-the-holder-unwound".into();
+                    d = d.s("waiter_panic", m);
+                }
+                _ => {}
+            }
+        }
         // (e) the guard is usable: a fresh thread creates an injector, installs, calls, drops; then a preventer
         if sig.is_empty() {
             let (tx, rx) = std::sync::mpsc::channel();
@@ -459,6 +529,6 @@ pub fn run(ctx: &Ctx) {
         }
     }
     let bm = by_msg.iter().fold(J::new(), |j, (k, v)| j.n(k, *v));
-    out::summary(&J::new().n("scripts_total", scripts.len()).o("outcomes_by_panic_class", bm).n("fresh_thread_probes", probes).n("aborts", 0).n("trampolines_left_after_injected_mprotect_failure", leaked_after_mprotect).o("counters", ip::counters_json()));
+    out::summary(&J::new().n("scripts_total", scripts.len()).o("outcomes_by_panic_class", bm).n("fresh_thread_probes", probes).n("threads_already_waiting_for_the_guard_when_the_holder_unwound", waiters).n("aborts", 0).n("trampolines_left_after_injected_mprotect_failure", leaked_after_mprotect).o("counters", ip::counters_json()));
     let _ = Ordering::SeqCst;
 }
